@@ -20,12 +20,15 @@ import (
 	"fmt"
 	"math/rand"
 	"net/url"
+	"os"
 	"sort"
 	"strconv"
 	"strings"
 	"testing"
 	"unicode"
 
+	"github.com/tucats/ego/internal/cli/settings"
+	"github.com/tucats/ego/internal/defs"
 	"github.com/tucats/ego/internal/verifh/srvfix"
 	"github.com/tucats/ego/internal/verifh/vh"
 )
@@ -332,6 +335,10 @@ func subsetOf(a, b []string) bool {
 	return true
 }
 
+// nameOnlyFolds is set by parseColumns/parseSort when a name matched a column only case-insensitively (or is SQLite's
+// implicit row id): no verdict on such a request.
+var nameOnlyFolds bool
+
 // parseColumns: documented meaning of a columns list over a table. ok=false → no documented meaning.
 func parseColumns(m *TableModel, vals []string) (cols []string, ok bool) {
 	for _, v := range vals {
@@ -342,6 +349,10 @@ func parseColumns(m *TableModel, vals []string) (cols []string, ok bool) {
 			}
 
 			if !m.HasCol(name) {
+				if m.HasColFold(name) || sqliteImplicit(name) {
+					nameOnlyFolds = true
+				}
+
 				return nil, false
 			}
 
@@ -367,6 +378,10 @@ func parseSort(m *TableModel, vals []string) (keys []SortKey, ok bool) {
 			}
 
 			if !m.HasCol(name) {
+				if m.HasColFold(name) || sqliteImplicit(name) {
+					nameOnlyFolds = true
+				}
+
 				return nil, false
 			}
 
@@ -587,7 +602,7 @@ func (c *c14Ctx) evaluate(rq *c14Req) (verdict c14Verdict, resp srvfix.Response)
 	if mBefore == nil {
 		// no such table: the request must be rejected
 		if ok2xx && !(rq.Kind == "tx" && rq.Task == nil) {
-			verdict.add("no-meaning-accepted", fmt.Sprintf("table %q does not exist, status %d", addressed, resp.Status))
+			verdict.add("no-meaning-accepted/no-table", fmt.Sprintf("table %q does not exist, status %d", addressed, resp.Status))
 		}
 
 		return
@@ -683,9 +698,33 @@ func (c *c14Ctx) modelCheck(rq *c14Req, resp srvfix.Response, ok2xx bool, m, mAf
 			var okObj bool
 
 			payload, okObj = decodeObj(rq.Body)
+
+			if okObj && len(rq.param("abstract")) > 0 {
+				// the abstract form: {"columns":[{"name":…}],"rows":[[…]]} -- one row here
+				if colsAny, isList := payload["columns"].([]any); isList {
+					flat := map[string]any{}
+
+					var first []any
+
+					if rowsAny, isRows := payload["rows"].([]any); isRows && len(rowsAny) > 0 {
+						first, _ = rowsAny[0].([]any)
+					}
+
+					for i, c := range colsAny {
+						if cm, isMap := c.(map[string]any); isMap {
+							if name, isStr := cm["name"].(string); isStr && i < len(first) {
+								flat[name] = first[i]
+							}
+						}
+					}
+
+					payload = flat
+				}
+			}
+
 			if !okObj {
 				if ok2xx && !unchanged {
-					verdict.add("no-meaning-accepted", "payload is not a JSON object, yet rows changed")
+					verdict.add("no-meaning-accepted/payload", "payload is not a JSON object, yet rows changed")
 				}
 
 				return
@@ -717,8 +756,22 @@ func (c *c14Ctx) modelCheck(rq *c14Req, resp srvfix.Response, ok2xx bool, m, mAf
 		}
 	}
 
+	nameOnlyFolds = false
 	cols, colsOK := parseColumns(m, colVals)
 	keys, sortOK := parseSort(m, sortVals)
+
+	for k := range payload {
+		if !m.HasCol(k) && (m.HasColFold(k) || sqliteImplicit(k)) {
+			nameOnlyFolds = true
+		}
+	}
+
+	if nameOnlyFolds {
+		r.Count("model.ambiguous", 1)
+		verdict.notes = append(verdict.notes, "a name matches a column only without regard to case")
+
+		return
+	}
 
 	limit, offset := 1000, 0
 	pagingOK := true
@@ -750,10 +803,35 @@ func (c *c14Ctx) modelCheck(rq *c14Req, resp srvfix.Response, ok2xx bool, m, mAf
 
 	r.Count("model.meaning."+meaning.String(), 1)
 
-	reject := func(what string) {
+	// filterClass names WHY the filter has no documented meaning, so that different leniencies get different keys
+	filterClass := func() string {
+		switch {
+		case strings.HasPrefix(why, "unknown column"):
+			return "unknown-column"
+		case strings.Contains(why, "bare operand") || strings.Contains(why, "operand where a condition"):
+			return "bare-operand"
+		}
+
+		for _, f := range filters {
+			toks, okLex, _ := flex(f)
+			if len(toks) >= 1 && !(toks[0].t == "id" && len(toks) >= 2 && toks[1].t == "(") {
+				return "bare-operand" // does not even start with OPERATOR(
+			}
+
+			if !okLex {
+				return "lexical"
+			}
+		}
+
+		return "syntax"
+	}
+
+	nm := func(class string) string { return "no-meaning-accepted/" + class }
+
+	reject := func(class, what string) {
 		// the request has no documented meaning: it must be rejected
 		if ok2xx {
-			verdict.add("no-meaning-accepted", what+fmt.Sprintf(" (status %d)", resp.Status))
+			verdict.add(nm(class), what+fmt.Sprintf(" (status %d)", resp.Status))
 		} else {
 			r.Count("rejected.no-meaning", 1)
 		}
@@ -812,27 +890,27 @@ func (c *c14Ctx) modelCheck(rq *c14Req, resp srvfix.Response, ok2xx bool, m, mAf
 		if kind == "txselect" {
 			// select stores one row as symbols and answers with a count: nothing to compare beyond containment
 			if meaning == MeaningNone && !hasPrefix {
-				reject("select task: " + why)
+				reject(filterClass(), "select task: "+why)
 			}
 
 			return
 		}
 
 		if !colsOK {
-			reject("columns list names something that is not a column of the table")
+			reject("columns", "columns list names something that is not a column of the table")
 
 			return
 		}
 
 		if !pagingOK {
-			reject("limit/start outside the documented form")
+			reject("paging", "limit/start outside the documented form")
 
 			return
 		}
 
 		if meaning == MeaningNone {
 			if !hasPrefix {
-				reject("filter: " + why)
+				reject(filterClass(), "filter: "+why)
 
 				return
 			}
@@ -916,7 +994,7 @@ func (c *c14Ctx) modelCheck(rq *c14Req, resp srvfix.Response, ok2xx bool, m, mAf
 
 		fail := func(desc string) {
 			if leniency {
-				verdict.add("no-meaning-accepted", "filter has no documented meaning ("+why+") and the answer is not that of its grammatical prefix either: "+desc)
+				verdict.add(nm(filterClass()), "filter has no documented meaning ("+why+") and the answer is not that of its grammatical prefix either: "+desc)
 			} else {
 				verdict.add("wrong-rows", desc)
 			}
@@ -929,7 +1007,7 @@ func (c *c14Ctx) modelCheck(rq *c14Req, resp srvfix.Response, ok2xx bool, m, mAf
 				fail(fmt.Sprintf("%d rows returned, model selects %d (page %d); or rows outside the selection", len(gotKeys), len(expKeys), wantCount))
 			}
 
-			reject("sort term that is not a column of the table")
+			reject("sort", "sort term that is not a column of the table")
 		case len(keys) == 0:
 			// unspecified order
 			if lo == 0 && hi == len(expKeys) {
@@ -1015,9 +1093,9 @@ func (c *c14Ctx) modelCheck(rq *c14Req, resp srvfix.Response, ok2xx bool, m, mAf
 		if meaning == MeaningNone {
 			if !hasPrefix {
 				if !unchanged {
-					verdict.add("no-meaning-accepted", "filter: "+why+"; rows were deleted")
+					verdict.add(nm(filterClass()), "filter: "+why+"; rows were deleted")
 				} else {
-					reject("filter: " + why)
+					reject(filterClass(), "filter: "+why)
 				}
 
 				return
@@ -1047,7 +1125,7 @@ func (c *c14Ctx) modelCheck(rq *c14Req, resp srvfix.Response, ok2xx bool, m, mAf
 
 			desc := fmt.Sprintf("model deletes %d of %d rows; %d rows remain", len(sel), len(m.Rows), n)
 			if meaning == MeaningNone {
-				verdict.add("no-meaning-accepted", "filter has no documented meaning ("+why+"): "+desc)
+				verdict.add(nm(filterClass()), "filter has no documented meaning ("+why+"): "+desc)
 			} else {
 				verdict.add("wrong-rows", desc)
 			}
@@ -1074,9 +1152,9 @@ func (c *c14Ctx) modelCheck(rq *c14Req, resp srvfix.Response, ok2xx bool, m, mAf
 
 		if !colsOK {
 			if !unchanged {
-				verdict.add("no-meaning-accepted", "columns list names something that is not a column; rows changed")
+				verdict.add(nm("columns"), "columns list names something that is not a column; rows changed")
 			} else {
-				reject("columns list names something that is not a column of the table")
+				reject("columns", "columns list names something that is not a column of the table")
 			}
 
 			return
@@ -1085,9 +1163,9 @@ func (c *c14Ctx) modelCheck(rq *c14Req, resp srvfix.Response, ok2xx bool, m, mAf
 		if meaning == MeaningNone {
 			if !hasPrefix {
 				if !unchanged {
-					verdict.add("no-meaning-accepted", "filter: "+why+"; rows were updated")
+					verdict.add(nm(filterClass()), "filter: "+why+"; rows were updated")
 				} else {
-					reject("filter: " + why)
+					reject(filterClass(), "filter: "+why)
 				}
 
 				return
@@ -1111,9 +1189,9 @@ func (c *c14Ctx) modelCheck(rq *c14Req, resp srvfix.Response, ok2xx bool, m, mAf
 
 			if !m.HasCol(k) {
 				if !unchanged {
-					verdict.add("no-meaning-accepted", fmt.Sprintf("payload key %q is not a column; rows changed", vh.Trunc(k, 60)))
+					verdict.add(nm("payload-key"), fmt.Sprintf("payload key %q is not a column; rows changed", vh.Trunc(k, 60)))
 				} else {
-					reject(fmt.Sprintf("payload key %q is not a column", vh.Trunc(k, 60)))
+					reject("payload-key", fmt.Sprintf("payload key %q is not a column", vh.Trunc(k, 60)))
 				}
 
 				return
@@ -1176,7 +1254,7 @@ func (c *c14Ctx) modelCheck(rq *c14Req, resp srvfix.Response, ok2xx bool, m, mAf
 		if mAfter == nil || !multisetEq(exp, allRows(mAfter)) {
 			desc := fmt.Sprintf("model updates %d of %d rows with %v; the table differs from that", len(selSet), len(m.Rows), set)
 			if meaning == MeaningNone {
-				verdict.add("no-meaning-accepted", "filter has no documented meaning ("+why+"): "+desc)
+				verdict.add(nm(filterClass()), "filter has no documented meaning ("+why+"): "+desc)
 			} else {
 				verdict.add("wrong-rows", desc)
 			}
@@ -1188,6 +1266,90 @@ func (c *c14Ctx) modelCheck(rq *c14Req, resp srvfix.Response, ok2xx bool, m, mAf
 	case "put":
 		if !ok2xx {
 			r.Count("rejected.any", 1)
+
+			return
+		}
+
+		// upsert: "?upsert=col1,col2: those columns are the match key; a row with the same key is updated, otherwise a new row is inserted"
+		var upsertMatches []int
+
+		if ups := rq.param("upsert"); len(ups) > 0 && rq.Kind == "put" {
+			var keyCols []string
+
+			for _, part := range strings.Split(ups[len(ups)-1], ",") {
+				if part = strings.TrimSpace(part); part != "" {
+					keyCols = append(keyCols, part)
+				}
+			}
+
+			if len(keyCols) == 0 {
+				keyCols = []string{"_row_id_"}
+			}
+
+			usable := true
+
+			for _, kc := range keyCols {
+				if _, inPayload := payload[kc]; !inPayload || !m.HasCol(kc) {
+					usable = false
+				}
+			}
+
+			if usable {
+				for i, row := range m.Rows {
+					same := true
+
+					for _, kc := range keyCols {
+						pv, okv := payloadValue(m, kc, payload[kc])
+						if kc == "_row_id_" {
+							pv, okv = payload[kc], true
+						}
+
+						if !okv || renderVal(modelVal(row[kc], m.colClass(kc))) != renderVal(modelVal(pv, m.colClass(kc))) {
+							same = false
+						}
+					}
+
+					if same {
+						upsertMatches = append(upsertMatches, i)
+					}
+				}
+			}
+		}
+
+		if len(upsertMatches) > 0 {
+			var exp []string
+
+			isMatch := map[int]bool{}
+			for _, i := range upsertMatches {
+				isMatch[i] = true
+			}
+
+			for i, row := range m.Rows {
+				nr := Row{}
+				for k, v := range row {
+					nr[k] = v
+				}
+
+				if isMatch[i] {
+					for k, v := range payload {
+						if k == "_row_id_" || !m.HasCol(k) {
+							continue
+						}
+
+						if pv, okv := payloadValue(m, k, v); okv {
+							nr[k] = pv
+						}
+					}
+				}
+
+				exp = append(exp, m.project(nr, m.Cols))
+			}
+
+			if mAfter == nil || !multisetEq(exp, allRows(mAfter)) {
+				verdict.add("wrong-rows", fmt.Sprintf("upsert: the key matches %d of %d rows, which the model updates; the table differs from that (%s)", len(upsertMatches), len(m.Rows), firstDiff(allRows(mAfter), exp)))
+			} else {
+				r.Count("model.effects-compared", 1)
+			}
 
 			return
 		}
@@ -1205,9 +1367,9 @@ func (c *c14Ctx) modelCheck(rq *c14Req, resp srvfix.Response, ok2xx bool, m, mAf
 
 			if !m.HasCol(k) {
 				if !unchanged {
-					verdict.add("no-meaning-accepted", fmt.Sprintf("payload key %q is not a column; a row was inserted", vh.Trunc(k, 60)))
+					verdict.add(nm("payload-key"), fmt.Sprintf("payload key %q is not a column; a row was inserted", vh.Trunc(k, 60)))
 				} else {
-					reject(fmt.Sprintf("payload key %q is not a column", vh.Trunc(k, 60)))
+					reject("payload-key", fmt.Sprintf("payload key %q is not a column", vh.Trunc(k, 60)))
 				}
 
 				return
@@ -1263,6 +1425,12 @@ var c14Hostile = []string{
 	`t" UNION SELECT * FROM other --`, `secret`, `other`, `v_secret`, `t,secret`, `t, secret`, `t JOIN secret`, `t; DROP TABLE other`, `t--`, `t/*`, `"t"`, `'t'`, `sqlite_master`, `T`, `main.t`, `main.secret`,
 	`x'`, `'x`, `''`, `'`, `"`, `\`, `\' OR 1=1 --`, `%27 OR 1=1`, `0x31`, `1e309`, `-1`, `99999999999999999999`, `{{x}}`, `$1`, `?1`, `NULL`, `.nil`, `nil`,
 	`name) OR (1=1`, `name=name`, `1=1`, `name --`, `name/**/`, `rowid`, `_rowid_`, `oid`, `id+1`, `-id`, `abs(id)`, `random()`, `id DESC`, `id ASC, name`, `id COLLATE NOCASE`, `id LIMIT 1 --`,
+	// identifiers that both start and end with a double quote
+	`"id"`, `"grp"`, `"id" FROM secret --"`, `"t" UNION SELECT * FROM other --"`, `"x""y"`, `"a"."b"`, `"secret"."sval"`, `""`, `"id","sval" FROM secret --"`, `"~id"`,
+	// list operators without values, blank filters
+	`HAS(name)`, `HASANY(grp)`, `HASALL(name)`, `CONTAINS(name)`, `CONTAINSALL(grp)`, `AND(HAS(name),EQ(id,1))`, `OR(HAS(name),EQ(id,1))`, `NOT(HAS(name))`, ` `, `  `, `,`, `EQ(id,1),`, `,EQ(id,1)`,
+	// a sign in front of a string constant
+	`EQ(id,-"1 OR 1=1")`, `EQ(id,+"1 OR 1=1")`, `GT(id,-"1) OR (1=1")`, `EQ(id,-'1 OR 1=1')`, `EQ(-"1 OR 1=1",id)`, `NOT(EQ(id,-"1 AND 1=0"))`,
 	` OR 1=1) --`, ` OR 1=1); DELETE FROM other --`, ` OR 1=1) UNION SELECT sval,sval,sval FROM secret --`, ` IS NOT NULL) --`, ` OR id>0) --`,
 	`nosuch`, `NAME`, `Id`, ` id`, `id `, `*`, `t.*`, `t.id`, `secret.sval`, `1`, `0`, ``,
 }
@@ -1585,6 +1753,11 @@ func (g *c14Gen) hostile(pos, adv string, v int, nextID *int64) *c14Req {
 		return withBody(&c14Req{Kind: kindOf(), Table: "t", Pos: pos, Adv: adv, Params: []kv{{"filter", `EQ(name,'` + q2(adv) + `')`}}})
 	case "filter.value.num":
 		return withBody(&c14Req{Kind: kindOf(), Table: "t", Pos: pos, Adv: adv, Params: []kv{{"filter", `EQ(id,` + adv + `)`}}})
+	case "filter.signed":
+		// a sign in front of a quoted constant: the constant's text is what is hostile
+		sign := []string{"-", "+"}[pick(2)]
+
+		return withBody(&c14Req{Kind: kindOf(), Table: "t", Pos: pos, Adv: adv, Params: []kv{{"filter", `EQ(id,` + sign + `"` + q1(adv) + `")`}}})
 	case "filter.ident":
 		return withBody(&c14Req{Kind: kindOf(), Table: "t", Pos: pos, Adv: adv, Params: []kv{{"filter", `EQ(` + adv + `,1)`}}})
 	case "filter.raw":
@@ -1632,6 +1805,16 @@ func (g *c14Gen) hostile(pos, adv string, v int, nextID *int64) *c14Req {
 		*nextID++
 
 		return &c14Req{Kind: "put", Table: "t", Pos: pos, Adv: adv, Body: fmt.Sprintf(`{"id":%d,"name":"p","grp":"g","score":1,"flag":true,"uq":%d,%s:"v"}`, *nextID, 100000+*nextID, k)}
+	case "row.key.null":
+		// a key whose value is null is not converted to a column type on its way into the statement
+		k, _ := json.Marshal(adv)
+		if pick(2) == 0 {
+			return &c14Req{Kind: "patch", Table: "t", Pos: pos, Adv: adv, Params: []kv{{"filter", "EQ(id,2)"}}, Body: `{` + string(k) + `:null,"grp":"` + mark + `"}`}
+		}
+
+		*nextID++
+
+		return &c14Req{Kind: "put", Table: "t", Pos: pos, Adv: adv, Body: fmt.Sprintf(`{"id":%d,"name":"p","grp":"g","score":1,"flag":true,"uq":%d,%s:null}`, *nextID, 100000+*nextID, k)}
 	case "row.value":
 		v, _ := json.Marshal(adv)
 		if pick(2) == 0 {
@@ -1641,6 +1824,16 @@ func (g *c14Gen) hostile(pos, adv string, v int, nextID *int64) *c14Req {
 		*nextID++
 
 		return &c14Req{Kind: "put", Table: "t", Pos: pos, Adv: adv, Body: fmt.Sprintf(`{"id":%d,"name":%s,"grp":"g","score":1,"flag":true,"uq":%d}`, *nextID, v, 100000+*nextID)}
+	case "abstract.column":
+		k, _ := json.Marshal(adv)
+		if pick(2) == 0 {
+			return &c14Req{Kind: "patch", Table: "t", Pos: pos, Adv: adv, Params: []kv{{"filter", "EQ(id,2)"}, {"abstract", "true"}}, Body: `{"columns":[{"name":` + string(k) + `}],"rows":[["` + mark + `"]],"count":1}`}
+		}
+
+		*nextID++
+
+		return &c14Req{Kind: "put", Table: "t", Pos: pos, Adv: adv, Params: []kv{{"abstract", "true"}},
+			Body: fmt.Sprintf(`{"columns":[{"name":"id"},{"name":"name"},{"name":"grp"},{"name":"score"},{"name":"flag"},{"name":"uq"},{"name":%s},{"name":"_row_id_"}],"rows":[[%d,"p","g",1,true,%d,"v",""]],"count":1}`, k, *nextID, 100000+*nextID)}
 	case "row.rowid":
 		v, _ := json.Marshal(adv)
 
@@ -1755,7 +1948,7 @@ func (g *c14Gen) hostile(pos, adv string, v int, nextID *int64) *c14Req {
 }
 
 // c14Variants: how many request shapes hostile() has per position
-var c14Variants = map[string]int{"filter.value.dq": 4, "filter.value.sq": 4, "filter.value.num": 4, "filter.ident": 4, "filter.raw": 4, "filter.pair": 16, "columns": 2, "columns.patch": 1, "sort": 2,
+var c14Variants = map[string]int{"filter.signed": 8, "row.key.null": 2, "abstract.column": 2, "filter.value.dq": 4, "filter.value.sq": 4, "filter.value.num": 4, "filter.ident": 4, "filter.raw": 4, "filter.pair": 16, "columns": 2, "columns.patch": 1, "sort": 2,
 	"limit": 2, "start": 2, "table": 5, "row.key": 2, "row.value": 2, "row.rowid": 1, "upsert": 1, "upsert.value": 1, "tx.table": 5, "tx.filter": 12, "tx.columns": 3, "tx.data.key": 2, "tx.data.value": 2}
 
 func c14Probes() []*c14Req {
@@ -1779,11 +1972,13 @@ func c14Probes() []*c14Req {
 		{Kind: "get", Table: "t", Pos: "filter.ident", Params: []kv{{"filter", "EQ(nosuch,1)"}}},
 		{Kind: "get", Table: "t", Pos: "filter.value.num", Params: []kv{{"filter", "EQ(id,nosuch)"}}},
 		{Kind: "delete", Table: "t", Pos: "filter.raw", Params: []kv{{"filter", "1"}}},
+		{Kind: "get", Table: "t", Pos: "filter.signed", Params: []kv{{"filter", `EQ(id,-"1 OR 1=1")`}, {"columns", "id"}}},
+		{Kind: "delete", Table: "t", Pos: "filter.signed", Params: []kv{{"filter", `EQ(id,-"1 OR 1=1")`}}},
 		tx("tx.filter", &txTask{Op: "update", Table: "t", Filters: []string{"1"}, Data: map[string]any{"grp": "hostile-probe"}}),
 	}
 }
 
-var c14Positions = []string{"filter.value.dq", "filter.value.sq", "filter.value.num", "filter.ident", "filter.raw", "filter.pair", "columns", "columns.patch", "sort", "limit", "start", "table",
+var c14Positions = []string{"filter.signed", "row.key.null", "abstract.column", "filter.value.dq", "filter.value.sq", "filter.value.num", "filter.ident", "filter.raw", "filter.pair", "columns", "columns.patch", "sort", "limit", "start", "table",
 	"row.key", "row.value", "row.rowid", "upsert", "upsert.value", "tx.table", "tx.filter", "tx.columns", "tx.data.key", "tx.data.value"}
 
 func TestC14(t *testing.T) {
@@ -1856,6 +2051,10 @@ func TestC14(t *testing.T) {
 
 		verdict, resp := ctx.evaluate(rq)
 
+		if dbg := os.Getenv("C14_DEBUG_POS"); dbg != "" && strings.HasPrefix(rq.Pos, dbg) {
+			fmt.Printf("DBG %s %s %s %s -> %d %v %.160s\n", rq.Pos, rq.method(), rq.path(), rq.Body, resp.Status, verdict.effects, msgOrBody(resp))
+		}
+
 		id := rq.method() + " " + rq.path() + " " + rq.Body
 		nontrivial := rq.Pos != "" || len(rq.param("filter")) > 0 || rq.Kind == "tx" || rq.Kind == "put" || rq.Kind == "patch" || rq.Kind == "delete"
 		r.Eval(id, nontrivial)
@@ -1916,6 +2115,29 @@ func TestC14(t *testing.T) {
 		for _, rq := range c14Probes() {
 			run(rq, "probe")
 		}
+	}
+
+	// ---- upsert on an existing key (documented: that row is updated), with the server's "a filter is required" guard
+	// on (default) and off: the guard is what hides an UPDATE that carries no WHERE clause for the match key
+	if shardI == 0 {
+		upsertProbes := func(tag string) {
+			// table other has no unique column besides _row_id_, so an UPDATE of every row is not stopped by a constraint
+			for i, body := range []string{
+				`{"id":1,"name":"Tom0","note":"UPSERTED-` + tag + `"}`,
+				`{"id":2,"name":"renamed","note":"UPSERTED-` + tag + `"}`,
+			} {
+				run(&c14Req{Kind: "put", Table: "other", Pos: "upsert.match." + tag, Params: []kv{{"upsert", []string{"name", "id"}[i]}}, Body: body}, "probe")
+			}
+		}
+
+		upsertProbes("filter-guard-on")
+
+		saved := settings.Get(defs.TablesServerEmptyFilterError)
+		settings.SetDefault(defs.TablesServerEmptyFilterError, "false")
+		upsertProbes("filter-guard-off")
+		settings.SetDefault(defs.TablesServerEmptyFilterError, saved)
+
+		sinceRestore = 1 << 30
 	}
 
 	// ---- directed pass: every hostile string at every position
